@@ -53,9 +53,23 @@ def adversarial(w, J, prefix='k'):
     return out[:-1]
 
 
+def dec_thr(t):
+    """Thresholds are floats, or exact rationals written ['frac', p, q] / decimals written ['dec', text]."""
+    if isinstance(t, list) and t[0] == 'frac':
+        from fractions import Fraction
+        return Fraction(t[1], t[2])
+    if isinstance(t, list) and t[0] == 'dec':
+        from decimal import Decimal
+        return Decimal(t[1])
+    return t
+
+
 def gen(r):
     thr = r.choice([0.5, 0.34, 0.25, 0.2, 0.1, 0.1, 0.05, 0.03, 0.01, 0.004, 0.002])
-    w = int(1 / thr)
+    if r.random() < 0.15:
+        # exact rationals whose reciprocal is an integer that binary floating point misses (1/93 -> 92.99999...)
+        thr = r.choice([['frac', 1, q] for q in (93, 99, 105, 117, 49, 98, 103, 107, 3, 7, 10)] + [['dec', '0.01'], ['dec', '0.1']])
+    w = int(1 / dec_thr(thr))
     style = r.choice(['uniform', 'zipf', 'distinct', 'adversarial', 'adversarial', 'mixed'])
     n = r.choice([0, 1, w - 1, w, w + 1, 3 * w, 10 * w + 3, 40 * w, r.randint(0, 800)])
     n = min(n, 4000)
@@ -94,7 +108,11 @@ def gen(r):
             m = r.randint(0, 5)
             chunk = stream[i:i + m]
             cnt = collections.Counter(chunk)
-            feed.append(['update-map', [[k, c] for k, c in cnt.items()]])
+            pairs = [[k, c] for k, c in cnt.items()]
+            if r.random() < 0.15:
+                # a Counter after subtract(): zero and negative counts are not additions
+                pairs += [[r.choice(stream[:i + 1] or [0]), r.choice([0, -1, -3])] for _ in range(r.randint(1, 2))]
+            feed.append(['update-map', pairs])
             i += m
         else:
             m = r.randint(1, 3)
@@ -160,9 +178,9 @@ def views_problem(tc, st):
 
 def check(c, st):
     cu = common.load('cacheutils')
-    thr = c['threshold']
+    thr = dec_thr(c['threshold'])
     tc = cu.ThresholdCounter(threshold=thr)
-    w = int(1 / thr)
+    w = int(1 / thr)        # floor(1/threshold), exactly, when the threshold is an exact rational
     exact = collections.Counter()
     total = 0
     nsteps = sum(1 if f[0] == 'add' else max(1, len(f[1])) for f in c['feed'])
@@ -245,9 +263,12 @@ def check(c, st):
                 for k in f[1]:
                     ref_add(k)
             elif how == 'update-map':
-                m = {k: n for k, n in f[1]}
+                m = {}
+                for k, n in f[1]:
+                    m[k] = n            # (a later entry for the same key wins, as in any mapping)
                 tc.update(m)
                 for k, n in m.items():
+                    n = max(n, 0)       # zero / negative counts add nothing
                     exact[k] += n
                     total += n
                     for _ in range(n):
